@@ -428,6 +428,8 @@ def check_C10(ctx, rep):
 
 
 def check_C11(ctx, rep):
+    small_models2.check_tm(ctx, rep, ctx.prog.func('tm_algorithms.tm_accepts_word'), ctx.prog.func('tm_algorithms.tm_simulate_word'))
+    rep.clauses_decided.append('tm_accepts_word and tm_simulate_word give the verdict and the configuration sequence of the definition on five model machines (a missing transition, a bump at the left end, writing and returning, an accepting initial state), all words up to length 3 and seven budgets from 0 to 40 (M34, finite model)')
     rep.clauses_decided += ['head >= 0 after every step, missing-transition default, blank extension, write before move (M6)',
                             'verdict loop and trace loop conform to one counter model for budgets 0..3 x (never halts | accepts / rejects after 0..3 steps) x word length 0 / 2: steps = min(j, k), no step in a halting state, verdict True / False / None, trace length steps + 1, initial tape = word or one blank (R-TM.model)',
                             'same default budget at the entry points, forwarded by the enumerator (R-TM.budget)']
